@@ -104,9 +104,23 @@ def extract(ck):
         # HEOM: reset before the first use of the auxiliary operators
         ht = ast.parse(X.read_source(REPO, "quantarhei/qm/liouvillespace/heom.py"))
         hp = X.find_def(ht, "propagate", cls="KTHierarchyPropagator")
-        resets = [n.lineno for n in ast.walk(hp) if isinstance(n, ast.Call) and isinstance(n.func, ast.Attribute) and n.func.attr == "reset_ados"]
-        uses = [n.lineno for n in ast.walk(hp) if isinstance(n, ast.Attribute) and n.attr == "ado"]
-        heom_first = bool(resets) and (not uses or min(resets) < min(uses))
+        hcls = next(n for n in ast.walk(ht) if isinstance(n, ast.ClassDef) and n.name == "KTHierarchyPropagator")
+        hmeth = {n.name: n for n in hcls.body if isinstance(n, ast.FunctionDef)}
+
+        def events(fn, depth=0):
+            """`reset` / `use` events of the auxiliary operators in source order, following calls to methods of the class"""
+            ev = []
+            for n in sorted((x for x in ast.walk(fn) if hasattr(x, "lineno")), key=lambda x: (x.lineno, x.col_offset)):
+                if isinstance(n, ast.Call) and isinstance(n.func, ast.Attribute) and n.func.attr == "reset_ados":
+                    ev.append("reset")
+                elif isinstance(n, ast.Call) and isinstance(n.func, ast.Attribute) and isinstance(n.func.value, ast.Name) \
+                        and n.func.value.id == "self" and n.func.attr in hmeth and n.func.attr != fn.name and depth < 2:
+                    ev += events(hmeth[n.func.attr], depth + 1)
+                elif isinstance(n, ast.Attribute) and n.attr == "ado":
+                    ev.append("use")
+            return ev
+        evs = events(hp)
+        heom_first = "reset" in evs and evs[0] == "reset"
         # recover_cutoff_coupling adds to the raw array
         hm = ast.parse(X.read_source(REPO, "quantarhei/qm/hilbertspace/hamiltonian.py"))
         rc = X.find_def(hm, "recover_cutoff_coupling", cls="Hamiltonian")
@@ -120,10 +134,10 @@ def extract(ck):
                 "def stickyNref : Bool := %s\ndef heomResetsFirst : Bool := %s\ndef recoverUsesRaw : Bool := %s\n"
                 "end QV.Gen.C15\n") % (L(branches, lambda b: "(%s, %s)" % (S(b[0]), L(b[1], S))), B(sticky), B(heom_first), B(raw))
     except (X.ExtractError, Exception) as e:
-        ck.tie_fail("extraction of the bracket sequences / refinement / reset facts failed: %r" % e)
-        return None
-    ck.gen("C15", body)
-    return dict(branches=branches, sticky=sticky, heom_first=heom_first, raw=raw)
+        return ck.tie_fallback("C15", "extraction of the bracket sequences / refinement / reset facts failed: %r" % e)
+    facts = dict(branches=branches, sticky=sticky, heom_first=heom_first, raw=raw)
+    ck.gen("C15", body, facts=facts)
+    return facts
 
 
 # ---------------------------------------------------------------------------------------------------
@@ -132,7 +146,8 @@ def run(ck):
     qr = import_quantarhei()
     from quantarhei import (Molecule, Aggregate, TimeAxis, CorrelationFunction, energy_units, eigenbasis_of, ReducedDensityMatrix,
                             StateVector, convert, Manager)
-    from quantarhei.qm import (ReducedDensityMatrixPropagator, StateVectorPropagator, RedfieldRateMatrix, EvolutionSuperOperator)
+    from quantarhei.qm import (ReducedDensityMatrixPropagator, StateVectorPropagator, RedfieldRateMatrix, EvolutionSuperOperator,
+                               PureDephasing)
     from quantarhei.qm.propagators.poppropagator import PopulationPropagator
     rng = ck.rng
     ck.rule = ("random histories (10-16 calls) on ONE set of shared objects (aggregate of 2-3 sites, its Hamiltonian, system-bath "
@@ -263,6 +278,13 @@ def run(ck):
         r1[1, 1] = 1.0
         rho1 = ReducedDensityMatrix(data=r1.copy())
         inputs["rho1"] = rho1
+        # pure-dephasing objects shared by several propagators and evolution superoperators
+        gam = numpy.zeros((dim, dim))
+        for i_ in range(dim):
+            for j_ in range(i_ + 1, dim):
+                gam[i_, j_] = gam[j_, i_] = rng.randint(1, 6) / 1024.0
+        pdephs = {"Gaussian": PureDephasing(drates=gam.copy(), dtype="Gaussian"), "Lorentzian": PureDephasing(drates=gam.copy(), dtype="Lorentzian")}
+        inputs["pd_gauss"] = pdephs["Gaussian"]; inputs["pd_lorentz"] = pdephs["Lorentzian"]
         base = snapshot(inputs)
 
         def call_tensor(tk, in_units):
@@ -287,11 +309,22 @@ def run(ck):
         # hierarchy run; the rest is random
         focus = TKEYS[s % len(TKEYS)]
         plan = [("tensor", focus, True), ("tensor", focus, False), ("prop",), ("prop",), ("proptd", 0), ("proptd", 1), ("proptd", 0)]
+        dk = "Gaussian" if s % 3 != 2 else "Lorentzian"
+        plan += [("propdeph", dk, 0), ("propdeph", dk, 1), ("esodeph", dk)]
         if s % 2 == 0:
             plan.append(("heom",))
         while len(plan) < ncalls:
-            o = rng.choice(["tensor", "tensor", "prop", "prop", "prop", "setref", "heom", "sv", "pop", "eso", "proptd"])
-            plan.append((o, rng.choice(TKEYS), rng.random() < 0.5) if o == "tensor" else ((o, rng.randrange(2)) if o == "proptd" else (o,)))
+            o = rng.choice(["tensor", "tensor", "prop", "prop", "prop", "setref", "heom", "sv", "pop", "eso", "proptd", "propdeph", "esodeph"])
+            if o == "tensor":
+                plan.append((o, rng.choice(TKEYS), rng.random() < 0.5))
+            elif o == "proptd":
+                plan.append((o, rng.randrange(2)))
+            elif o == "propdeph":
+                plan.append((o, dk, rng.randrange(2)))
+            elif o == "esodeph":
+                plan.append((o, dk))
+            else:
+                plan.append((o,))
         rest = plan[1:]
         rng.shuffle(rest)
         plan = [plan[0]] + rest
@@ -390,6 +423,52 @@ def run(ck):
                         rec["fresh_diff"] = dfresh
                     key = ("proptd", kk, st)
                     line = "pure 3"
+                elif op in ("propdeph", "esodeph"):
+                    # pure dephasing on a refined step (dt = 1/2 fs): the dephasing object is shared between a long-lived
+                    # propagator (used with two refinements), fresh propagators and evolution superoperators
+                    tk0 = ("standard_Redfield", ())
+                    if tk0 not in tensors:
+                        RT, hR, _ = call_tensor(TKEYS[0], False)
+                        tensors[tk0] = (RT, hR)
+                        lines.append("tensor %d" % names.index("standard_Redfield/ti") if "standard_Redfield/ti" in names else "pure 9")
+                        recs.append(dict(rec, op="tensor(aux)", aux=True))
+                    RT, hR = tensors[tk0]
+                    pd = pdephs[plan[ic][1]]
+                    rec.update(dephasing=plan[ic][1])
+                    if op == "propdeph":
+                        nr = 2 + plan[ic][2]
+                        rec.update(nref=nr)
+                        if ("deph", plan[ic][1], nr) not in props:
+                            pq = ReducedDensityMatrixPropagator(ta, hR, RTensor=RT, PDeph=pd)
+                            pq.setDtRefinement(nr)
+                            props[("deph", plan[ic][1], nr)] = pq
+                        with quiet():
+                            rt = props[("deph", plan[ic][1], nr)].propagate(rho0)
+                            pf = ReducedDensityMatrixPropagator(ta, hR, RTensor=RT, PDeph=PureDephasing(drates=gam.copy(), dtype=plan[ic][1]))
+                            pf.setDtRefinement(nr)
+                            fres = numpy.array(pf.propagate(rho0).data).ravel()
+                        res = numpy.array(rt.data).ravel()
+                        dfresh = float(numpy.abs(res - fres).max()) / (float(numpy.abs(fres).max()) or 1.0)
+                        ck.resid("reused vs fresh propagator and dephasing object", dfresh)
+                        if dfresh > 1e-10:
+                            rec["fresh_diff"] = dfresh
+                        key = ("propdeph", plan[ic][1], nr)
+                        line = "pure 4"
+                    else:
+                        t2 = TimeAxis(0.0, 3, 10.0)
+                        with quiet():
+                            U = EvolutionSuperOperator(t2, hR, RT, pdeph=pd)
+                            U.set_dense_dt(4)
+                            U.calculate()
+                            Uf = EvolutionSuperOperator(t2, hR, RT, pdeph=PureDephasing(drates=gam.copy(), dtype=plan[ic][1]))
+                            Uf.set_dense_dt(4)
+                            Uf.calculate()
+                        res = numpy.array(U.data).ravel()
+                        dfresh = float(numpy.abs(res - numpy.array(Uf.data).ravel()).max())
+                        if dfresh > 1e-10:
+                            rec["fresh_diff"] = dfresh
+                        key = ("esodeph", plan[ic][1])
+                        line = "pure 5"
                 elif op == "heom":
                     if hprop is None:
                         with quiet():
